@@ -9,7 +9,7 @@ mkdir -p $OUT
 git -C /repo worktree remove --force $WT 2>/dev/null; rm -rf $WT
 git -C /repo worktree add -q $WT HEAD || exit 3
 if ! git -C $WT apply --check $SRC/patch.diff 2>$OUT/apply.err; then
-  if git -C $WT apply --3way $SRC/patch.diff 2>>$OUT/apply.err; then echo "APPLY: needed 3-way"; git -C $WT diff > $OUT/patch_rebased.diff; git -C $WT checkout -- . ; git -C $WT apply $OUT/patch_rebased.diff; else echo "APPLY: FAILED"; cat $OUT/apply.err | head -5; git -C /repo worktree remove --force $WT; exit 4; fi
+  if git -C $WT apply --3way $SRC/patch.diff 2>>$OUT/apply.err; then echo "APPLY: needed 3-way"; git -C $WT diff HEAD > $OUT/patch_rebased.diff; git -C $WT reset -q --hard HEAD; git -C $WT apply $OUT/patch_rebased.diff; else echo "APPLY: FAILED"; cat $OUT/apply.err | head -5; git -C /repo worktree remove --force $WT; exit 4; fi
 else
   git -C $WT apply $SRC/patch.diff; echo "APPLY: clean"
 fi
